@@ -45,7 +45,7 @@ def generate(tier, rng):
     scen = []
     for k in range(12 if tier == "quick" else 200):
         scen.append({"mode": "chan", "writes": 150 if tier == "quick" else 400, "seed": seed() * 1000 + k, "src": "stress"})
-    for scene, depth, maxw in (("V", 5, 3), ("L", 5, 3), ("M", 7, 3), ("P", 7, 3)):
+    for scene, depth, maxw in (("V", 5, 3), ("L", 5, 3), ("M", 7, 3), ("P", 7, 3), ("D", 7, 2)):
         if tier == "thorough":
             depth += 1
         cfg = write_cfg("Gen_Handles_%s.cfg" % scene,
